@@ -538,6 +538,8 @@ class Folder:
                     return d
             return None
         if v[0] == "adt":
+            if v[2] is None or v[2] < 0:
+                return None
             vs = self.facts.enum_variants(v[1])
             if vs is not None:
                 return vs[v[2]][1] if v[2] < len(vs) else None
